@@ -114,3 +114,16 @@ Fixpoint coll_eqb (a b : coll) {struct a} : bool :=
       opt_str_eqb d1 d2 && Bool.eqb ad1 ad2 &&
       dict_equiv (Node g1) (Node g2) && dict_equiv (Node g2) (Node g1)
   end.
+
+(** decimal numeral of a natural number (the tallies of a depth-limited listing) *)
+Fixpoint nat_str_aux (fuel n : nat) (acc : string) : string :=
+  match fuel with
+  | O => acc
+  | S f =>
+      let acc' := String (Ascii.ascii_of_nat (48 + Nat.modulo n 10)) acc in
+      match Nat.div n 10 with
+      | O => acc'
+      | q => nat_str_aux f q acc'
+      end
+  end.
+Definition nat_str (n : nat) : string := nat_str_aux (S n) n EmptyString.
